@@ -48,7 +48,8 @@ type ReadOpt func(*ReadOptions) error
 // use AfterNanos instead.
 func After(start int64) ReadOpt {
 	return func(ro *ReadOptions) error {
-		if ro.End < start {
+		// End is 0 until Before has been called; only an End that has been set can conflict.
+		if ro.End > 0 && ro.End < start {
 			return fmt.Errorf("end cannot come before start")
 		}
 		ro.Start = start
